@@ -1476,6 +1476,16 @@ func (g *Gen) program(n int) {
 			}
 			g.emit(l)
 			g.emit(Line{Op: "drain", Pos: []string{id}})
+			if g.r.chance(40) {
+				// a second dump of the same collection through the same handle, with the other projection (keys only / full)
+				id2 := fmt.Sprintf("e%d", di)
+				l2 := Line{Op: "feed", Pos: []string{id2, c}, Args: [][2]string{{"bf", u(start)}, {"dump", "1"}}}
+				if _, ko := l.get("keysonly"); !ko {
+					l2.add("keysonly", "1")
+				}
+				g.emit(l2)
+				g.emit(Line{Op: "drain", Pos: []string{id2}})
+			}
 		}
 	}
 	for _, c := range g.colls {
